@@ -153,7 +153,7 @@ func vpH_C05_stall_resume() {
 	conn.maxReads = 12
 	w := newVPWorld(conn)
 	w.mode = vpReplyNoRestart
-	s := &Server{loggerProvider: &vpLogger{}}
+	s := NewServer(&vpLogger{}, nil)
 	s.handle(newVPCtx(), newCrypter([]byte("k"), conn, false), &vpHandler{w: w, id: 0})
 	vpAssert(conn.closes == 1, "C05.stall.connection-closed")
 	vpAssert(conn.readsAfterTimeout == 0, "C05.stall.no-read-after-the-deadline-fired")
